@@ -145,10 +145,14 @@ def suite_c07(r, n):
                     expect_calls.append("%d:%s@%s" % (k, canon_dump(p, pty, v), hs))
                     return "cb:ok"
                 return deliver(render_topic(prefix, vs, skey[1], pop), one)
-            for _ in range(3 + r.intn(7)):
+            # LENGTH: a few cases per run with more rejected messages than any plausible capacity (2*64+k), good ones interleaved
+            long_case = r.chance(3)
+            if long_case: Stat("long-case")
+            for step_no in range((135 + r.intn(10)) if long_case else (3 + r.intn(7))):
                 c = r.intn(100)
+                if long_case: c = 40 if step_no % 10 == 9 else (60 + r.intn(21))     # mostly M / E, a valid publish every 10th
                 s_subs = [k for k, sb in enumerate(subs) if sb["op"] == op]
-                if c < 36:                                    # valid publish with some subscription's variable values
+                if c < 36 or (long_case and c == 40):         # valid publish with some subscription's variable values
                     vs = r.pick([sb["vals"] for sb in subs]) if r.chance(80) else vals()
                     n_del = publish("P", op, oty, okey, vs)
                     Stat("act:P:delivered-to-%d" % min(n_del, 3))
